@@ -153,8 +153,19 @@ var reIdent = regexp.MustCompile(`[A-Za-z_][A-Za-z0-9_]*`)
 
 // c01Class: the shape of the input that puts it outside the guard of the C01 theorems (first match), or "".
 func c01Class(in *GenInput) string {
-	lower, local, coll, capt := false, false, false, false
+	lower, local, coll, capt, mockPkg := false, false, false, false, false
 	for _, it := range in.Data.Ifaces {
+		for _, m := range it.Methods {
+			for _, v := range append(append([]VarJ{}, m.Params...), m.Results...) {
+				used := map[string]string{}
+				pkgsIn(v.Type, used)
+				for _, name := range used {
+					if name == "mock" {
+						mockPkg = true
+					}
+				}
+			}
+		}
 		for _, tp := range it.TypeParams {
 			if tp.Name != "" && strings.ToUpper(tp.Name[:1]) != tp.Name[:1] {
 				lower = true
@@ -199,6 +210,8 @@ func c01Class(in *GenInput) string {
 		return "template-local"
 	case coll && in.Template == "matryer":
 		return "exported-collision"
+	case mockPkg && in.Template == "matryer":
+		return "package-named-mock"
 	case capt:
 		return "capture"
 	}
@@ -316,7 +329,7 @@ func (p c01) Run(c *Ctx, raw json.RawMessage) Case {
 		// a failure belongs to a known class only if the input has that class's shape
 		if cls := c01Class(&in); cls != "" {
 			or.Class = cls
-			finding = map[string]string{"capture": "C01-K1", "lowercase-typeparam": "C01-K2", "template-local": "C01-K3", "exported-collision": "C01-K4"}[cls]
+			finding = map[string]string{"capture": "C01-K1", "lowercase-typeparam": "C01-K2", "template-local": "C01-K3", "exported-collision": "C01-K4", "package-named-mock": "C01-K5"}[cls]
 		}
 	}
 	if p.prop == "C02" && !compiles && finding != "" {
